@@ -128,7 +128,7 @@ def loops():
     return core.cached("loops" + sh, emit)
 
 
-def run(prop, clause_prefixes, nq=500, V=None, evidence=True):
+def run(prop, clause_prefixes, nq=500, V=None, evidence=True, extra=None):
     t0 = time.time()
     tr, sd = core.tier(), core.seed()
     V = V or core.Verdicts(prop)
@@ -163,6 +163,8 @@ def run(prop, clause_prefixes, nq=500, V=None, evidence=True):
            "evaluations": len(cases), "distinct_nontrivial": sum(1 for c in cases if len(c["l"]["cons"]) >= 2),
            "rule": "all loops of GenLoop (1-2 consumers x 6 kinds x flows x drops x decay factors x ambient x pump kind), each in bidirectional and "
                    "sequential mode and with other start temperatures / labels / sections; non-trivial = two consumers"}
+    if extra:
+        cov.update(extra)
     if not evidence:
         return {"loop_runs": len(cases), "loop_runs_returned": ok, "loop_failing_clauses": dict(cc),
                 "loops_with_second_producer": sum(1 for c in cases if c["l"].get("p2"))}
@@ -176,7 +178,11 @@ def run(prop, clause_prefixes, nq=500, V=None, evidence=True):
 
 
 def main():
-    return run("C11", ("C11.",))
+    # heat-exchanger duties with a temperature-dependent heat capacity (PPRefMix / Trace_Mix): m (h(T_in) - h(T_out)) = q
+    from . import mix
+    V = core.Verdicts("C11")
+    extra = mix.part(V, "C11", core.tier(), core.seed(), model_check=False)
+    return run("C11", ("C11.",), V=V, extra=extra)
 
 
 def replay(path):
